@@ -215,6 +215,7 @@ struct Rules<'a> {
     r9: bool,
     hoists: &'a [Value],
     inlines: &'a [Value],
+    for_iters: &'a [Value],
     log: &'a mut Vec<Value>,
     file: &'a str,
     cur_fn: String,
@@ -340,6 +341,21 @@ impl<'a> VisitMut for Rules<'a> {
         }
     }
     fn visit_expr_for_loop_mut(&mut self, f: &mut syn::ExprForLoop) {
+        // R9 (configured form): `for x in E` where E has a reference-to-collection type is `for x in E.iter()`
+        // (std: `impl IntoIterator for &HashSet<T>` / `&Vec<T>` is `self.iter()`)
+        for fi in self.for_iters.iter() {
+            let in_fn = fi["fn"].as_str().unwrap_or("");
+            if !in_fn.is_empty() && in_fn != self.cur_fn { continue; }
+            let pat: String = fi["expr"].as_str().unwrap().chars().filter(|c| !c.is_whitespace()).collect();
+            if norm(&f.expr.to_token_stream()) == pat {
+                let m = syn::Ident::new(fi["method"].as_str().unwrap_or("iter"), Span::call_site());
+                let inner = &f.expr;
+                self.log.push(json!({"rule":"R9","file":self.file,"line":Self::line(f.for_token.span),
+                    "what":format!("in {}: `for .. in {}` written as `for .. in {}.{}()` (std's IntoIterator impl for references to collections)", self.cur_fn, pat, pat, m)}));
+                f.expr = Box::new(parse_quote!(#inner.#m()));
+                break;
+            }
+        }
         if self.r9 {
             // `impl IntoIterator for &mut Vec<T>` is `self.iter_mut()`, for `&Vec<T>` it is `self.iter()` (std definition)
             if let Expr::Reference(r) = &*f.expr {
@@ -567,6 +583,7 @@ fn main() {
         let empty = vec![];
         let hoists = src["hoist"].as_array().unwrap_or(&empty);
         let inlines = src["inline"].as_array().unwrap_or(&empty);
+        let for_iters = src["for_iter"].as_array().unwrap_or(&empty);
         let mut hoist_hits_total = vec![0usize; hoists.len()];
         // R7 legitimacy: every inlined accessor must still be exactly the recorded one-line body in /repo
         for inl in inlines.iter() {
@@ -650,7 +667,7 @@ fn main() {
                 AttrStrip { derive_keep: &derive_keep, log: &mut log, file, apply_r2: rules.contains("R2") }.visit_item_mut(&mut item);
                 let mut r = Rules {
                     r1: rules.contains("R1"), r3: rules.contains("R3"), r4: rules.contains("R4"), r9: rules.contains("R9"),
-                    hoists, inlines, log: &mut log, file, cur_fn: String::new(), hoist_hits: vec![0; hoists.len()],
+                    hoists, inlines, for_iters, log: &mut log, file, cur_fn: String::new(), hoist_hits: vec![0; hoists.len()],
                 };
                 r.visit_item_mut(&mut item);
                 for (k, h) in r.hoist_hits.iter().enumerate() {
